@@ -25,6 +25,11 @@ Alpha(Names, Targets) ==
    \cup { E(n, "d", m, 3, 0, <<>>) : n \in Names, m \in {755, 555} }
    \cup { E(n, "l", 777, 4, 0, tg) : n \in Names, tg \in Targets }
    \cup { E(<<"a">>, k, 644, 2, 0, <<>>) : k \in {"p", "h", "g"} }
+   \* entries that prescribe nothing themselves (PAX global headers) but name a path two levels below a link,
+   \* and the same path as a file; absolute targets that clean to exactly the parent of dst
+   \cup { E(n, "g", 644, 2, 0, <<>>) : n \in { <<"a","p","x">>, <<"s","u","a","x">> } }
+   \cup { E(<<"a","p","x">>, "f", 644, 2, 1, <<>>) }
+   \cup { E(n, "l", 777, 4, 0, tg) : n \in { <<"a">>, <<"s","u">> }, tg \in { <<"","A">>, <<"","A","d","..">> } }
 AlphaQuick == Alpha(NamesQ, TargetsQ)
 AlphaThorough == Alpha(NamesT, TargetsT)
 
